@@ -1003,9 +1003,14 @@ func (e *Exec) evalCall(x ECall, env *Env) Val {
 	case "substr":
 		return Val{T: "(str.substr " + arg(0).T + " " + arg(1).T + " " + arg(2).T + ")", S: SStr, Ty: types.Typ[types.String]}
 	}
-	sf, ok := e.P.Spec.Funcs[x.Fun]
+	fun := x.Fun
+	if m, ok := e.SpecModel[fun]; ok {
+		// refinement against a model: the interface's uninterpreted function is read as the implementation's definition
+		fun = m
+	}
+	sf, ok := e.P.Spec.Funcs[fun]
 	if !ok {
-		e.unsupported("unknown spec function %q", x.Fun)
+		e.unsupported("unknown spec function %q", fun)
 	}
 	if len(x.Args) != len(sf.Params) {
 		e.unsupported("spec function %s expects %d arguments", x.Fun, len(sf.Params))
